@@ -127,7 +127,10 @@ Compile(p, tgt) ==
        /\ heap' = (heap \ ProgRes(p, prog[p])) \cup ProgRes(p, o.rec)
        /\ Step("compile", o.cls, p)
   /\ UNCHANGED <<mode, tcode, bad>>
-  /\ Rec([op |-> "compile", p |-> p, a |-> tgt])
+  \* the class the model expects travels with the behaviour: the replayer stops a
+  \* behaviour at the first compile whose class differs (the rest of the
+  \* behaviour was generated for a state the implementation is not in)
+  /\ Rec([op |-> "compile", p |-> p, a |-> tgt \o "/" \o CompileOutcome(prog[p], mode, tgt).cls])
 
 \* orc_program_take_code: ownership of the code object moves to the application
 TakeCode(p, c) ==
